@@ -262,4 +262,172 @@ def run (c : Cfg) (r : Reader) : State → List Op → State × List Res
 /-- `XMReaderFromRWSet(xc.RWSet())` -/
 def readerFromRWSet (s : State) : Reader := memReader s.inputs
 
+/-! ### the token side of one execution: `Transfer`, events, `Flush`
+
+(kernel/contract/sandbox/utxo.go, xmcache.go `Transfer/UTXORWSet/AddEvent/Flush`,
+bcs/ledger/xledger/state/utxo/utxo_sandbox.go `UTXOSandbox`.)
+
+* Addresses, output references `(RefTxid, RefOffset)`, event names and bodies are abstract `Nat`s.
+* A `contract.UtxoReader` is a state machine `UReader σ`: `select st a n` is
+  `SelectUtxo(a, n, lock, excludeUnconfirmed)`; the answer is `none` for an error, else the inputs
+  handed out and the total the reader reports (`UTXOSandbox.Transfer` trusts that total).
+* `listReader` is the first-run reader of the harness and the shape of `UtxoVM.SelectUtxos`: the
+  unspent outputs in a fixed order; a selection walks them, takes every output owned by `a` until
+  the running sum reaches the amount and removes (locks) what it took; if the outputs of `a` do not
+  cover the amount it fails and takes nothing (`UtxoVM` unlocks what it had locked).
+* `replayReader` is `sandbox.UTXOReader` (`NewUTXOReaderFromInput`): the state is
+  `inputCache[inputIdx:]`.
+* `Flush` writes up to three entries into the transient bucket with `XMCache.Put` (which never
+  reads in that bucket): `ContractUtxo.Inputs`, `ContractUtxo.Outputs` (each only if the list is
+  not empty) and `contractEvent` (only if there is an event).  Their keys sort, in this byte order,
+  before every key `k<i>` the op lines can name, and the transient bucket `$transient` sorts before
+  every other bucket, so in `RWSet().WSet` (the outputs tree in raw-key order) they come first, in
+  this order.  They are kept apart from the `Nat`-valued store: `WSet.reserved`.
+  A contract execution ends before `Flush`, so `Flush` is the last step (the drivers refuse further
+  calls after it).
+-/
+
+scoped notation "Addr" => Nat
+
+/-- `protos.TxInput` (frozen height left out: the sandbox never looks at it) -/
+structure TxIn where
+  ref : Nat
+  owner : Addr     -- FromAddr
+  amt : Nat
+deriving Repr, DecidableEq, Inhabited
+
+/-- `protos.TxOutput` -/
+structure TxOut where
+  to : Addr
+  amt : Nat
+deriving Repr, DecidableEq, Inhabited
+
+/-- `protos.ContractEvent` -/
+structure Event where
+  name : Nat
+  body : Nat
+deriving Repr, DecidableEq, Inhabited
+
+def sumIn (l : List TxIn) : Nat := (l.map (·.amt)).sum
+def sumOut (l : List TxOut) : Nat := (l.map (·.amt)).sum
+
+/-- `contract.UtxoReader` as a state machine: answer (`none` = error, else inputs and reported
+total) and next state -/
+structure UReader (σ : Type) where
+  select : σ → Addr → Nat → Option (List TxIn × Nat) × σ
+
+/-- the selection loop of `UtxoVM.SelectUtxos`: outputs of `a` in order until `need` is covered;
+`some (taken, left)` or `none` when the outputs of `a` do not cover `need` -/
+def pickUtxo (a : Addr) : Nat → List TxIn → Option (List TxIn × List TxIn)
+  | _, [] => none
+  | need, u :: rest =>
+    if u.owner = a then
+      if need ≤ u.amt then some ([u], rest)
+      else
+        match pickUtxo a (need - u.amt) rest with
+        | none => none
+        | some (t, l) => some (u :: t, l)
+    else
+      match pickUtxo a need rest with
+      | none => none
+      | some (t, l) => some (t, u :: l)
+
+/-- the first-run reader: state = the unspent, unlocked outputs in selection order.  An amount of
+zero selects nothing (`SelectUtxos` returns early); `Transfer` never asks for zero. -/
+def listReader : UReader (List TxIn) where
+  select st a need :=
+    if need = 0 then (some ([], 0), st)
+    else
+      match pickUtxo a need st with
+      | none => (none, st)
+      | some (t, l) => (some (t, sumIn t), l)
+
+/-- the loop of `UTXOReader.SelectUtxo` over `inputCache[inputIdx:]`, with the count `n` and the sum
+so far: `none` = "from address mismatch", else the count and sum with which the loop was left -/
+def replayLoop (a : Addr) (need : Nat) : List TxIn → Nat → Nat → Option (Nat × Nat)
+  | [], n, sum => some (n, sum)
+  | u :: rest, n, sum =>
+    if u.owner ≠ a then none
+    else if need ≤ sum + u.amt then some (n + 1, sum + u.amt)
+    else replayLoop a need rest (n + 1) (sum + u.amt)
+
+/-- `sandbox.UTXOReader` built by `NewUTXOReaderFromInput`: state = `inputCache[inputIdx:]` -/
+def replayReader : UReader (List TxIn) where
+  select st a need :=
+    match replayLoop a need st 0 0 with
+    | none => (none, st)
+    | some (n, sum) =>
+      if sum < need then (none, st)          -- "utxo not enough in utxo cache"
+      else (some (st.take n, sum), st.drop n)
+
+/-- `utxo.UTXOSandbox` -/
+structure UState (σ : Type) where
+  rd : σ                -- the reader's state
+  uin : List TxIn       -- inputCache
+  uout : List TxOut     -- outputCache
+
+/-- `UTXOSandbox.Transfer`; `false` = an error is returned (nothing is recorded then) -/
+def transfer (R : UReader σ) (u : UState σ) (a to : Addr) (amt : Nat) : UState σ × Bool :=
+  if amt = 0 then (u, false)
+  else
+    match R.select u.rd a amt with
+    | (none, st) => ({ u with rd := st }, false)
+    | (some (l, total), st) =>
+      ({ rd := st, uin := u.uin ++ l,
+         uout := u.uout ++ [⟨to, amt⟩] ++ (if amt < total then [⟨a, total - amt⟩] else []) }, true)
+
+/-- the whole sandbox: key/value caches, token caches, events -/
+structure XState (σ : Type) where
+  kv : State
+  tok : UState σ
+  events : List Event
+
+def XState.init (st : σ) : XState σ := ⟨State.init, ⟨st, [], []⟩, []⟩
+
+inductive XOp where
+  | kv (op : Op)
+  | xfer (a to : Addr) (amt : Nat)
+  | event (name body : Nat)
+deriving Repr, DecidableEq
+
+inductive XRes where
+  | kv (x : Res)
+  | xfer (ok : Bool)
+  | event
+deriving Repr, DecidableEq
+
+def xstep (c : Cfg) (r : Reader) (R : UReader σ) (x : XState σ) : XOp → XState σ × XRes
+  | .kv op => let p := stepOp c r x.kv op; ({ x with kv := p.1 }, .kv p.2)
+  | .xfer a to amt => let p := transfer R x.tok a to amt; ({ x with tok := p.1 }, .xfer p.2)
+  | .event n b => ({ x with events := x.events ++ [⟨n, b⟩] }, .event)
+
+def xrun (c : Cfg) (r : Reader) (R : UReader σ) : XState σ → List XOp → XState σ × List XRes
+  | x, [] => (x, [])
+  | x, op :: ops =>
+    match xstep c r R x op with
+    | (x1, y) =>
+      match xrun c r R x1 ops with
+      | (x2, ys) => (x2, y :: ys)
+
+/-- an entry `Flush` writes into the transient bucket -/
+inductive TEntry where
+  | inputs (l : List TxIn)      -- `ContractUtxo.Inputs`
+  | outputs (l : List TxOut)    -- `ContractUtxo.Outputs`
+  | events (l : List Event)     -- `contractEvent`
+deriving Repr, DecidableEq
+
+/-- `XMCache.Flush` = `flushUTXORWSet` then `writeEventRWSet`: which entries exist, in the order in
+which they stand in the write set -/
+def flushEntries (uin : List TxIn) (uout : List TxOut) (evs : List Event) : List TEntry :=
+  (if uin.isEmpty then [] else [.inputs uin]) ++
+  (if uout.isEmpty then [] else [.outputs uout]) ++
+  (if evs.isEmpty then [] else [.events evs])
+
+/-- `RWSet().WSet` after `Flush`: `reserved`, then `kv 0`, `kv 1`, … -/
+structure WSet where
+  reserved : List TEntry
+  kv : Store
+
+def XState.flush (x : XState σ) : WSet := ⟨flushEntries x.tok.uin x.tok.uout x.events, x.kv.outputs⟩
+
 end XV.Sandbox
